@@ -478,7 +478,22 @@ func randCase(r *rand.Rand, s string) string {
 var sizeReject = []string{"-5KB", "-1", "-0.5mb", "", " ", "KB", "mb", "1.2.3MB", "1..2", ".", ". kb", "1e3", "0x10", "5 K B", "5 k\nb", "５", "1kbb", "1k", "1 bytes",
 	"1 m", "1_000", "1,5kb", "+1kb", "1kb1", "1 2kb", "kb1", "1.5.kb", "NaN", "Inf", "1 kB/s"}
 
+// whole numbers written with a fraction: "10.00 KB", "1020.", "0.0": integer part ending in one or more zeros
+func genSizeWhole(r *rand.Rand) Input {
+	ip := lib.Pick(r, []string{"0", "10", "20", "100", "1020", "1000", "500", "10240", "70", "00", "1200300"})
+	if lib.Chance(r, 0.2) {
+		ip = strconv.Itoa(r.Intn(100)) + strings.Repeat("0", lib.Range(r, 1, 4))
+	}
+	f := Bs(strings.Repeat("0", lib.Pick(r, []int{0, 0, 1, 2, 2, 3, 6})))
+	t := Term{Num: []byte(ip), Frac: &f, Unit: Bs(randCase(r, lib.Pick(r, sizeUnits)))}
+	e := &Expr{X: "num", Terms: []Term{t}, WS: Bs(lib.Pick(r, []string{"", "", " ", "  ", "\t"}))}
+	return Input{Kind: "size", S: renderSize(e), E: e}
+}
+
 func genSize(r *rand.Rand) Input {
+	if r.Intn(8) == 0 {
+		return genSizeWhole(r)
+	}
 	switch r.Intn(10) {
 	case 0, 1, 2, 3, 4, 5:
 		t := Term{Unit: Bs(randCase(r, lib.Pick(r, sizeUnits)))}
@@ -526,7 +541,7 @@ const printTop = int64(9223366407355241984) // smallest size printing as 8192.00
 
 func genPrint(r *rand.Rand) Input {
 	var b int64
-	switch r.Intn(12) {
+	switch r.Intn(13) {
 	case 0:
 		b = int64(r.Intn(2100))
 	case 1: // powers of 1024 +- a little
@@ -546,6 +561,10 @@ func genPrint(r *rand.Rand) Input {
 		k := lib.Range(r, 1, 5)
 		u := int64(1) << (10 * uint(k))
 		b = u*1024 - 1 - r.Int63n(u/100+1)
+	case 7, 8: // exact multiples of a unit whose printed integer part ends in 0: "10.00 KB", "100.00 GB", "1000.00 KB"
+		k := lib.Range(r, 1, 5)
+		m := int64(lib.Pick(r, []int{10, 20, 30, 50, 100, 200, 500, 1000, 1020, 70, 110}))
+		b = m << (10 * uint(k))
 	default: // log-uniform
 		b = r.Int63n(int64(1) << uint(lib.Range(r, 10, 62)))
 	}
